@@ -43,7 +43,34 @@ theorem mvp3Config_ok : CfgOk mvp3Config 64 16 64 :=
 
 structure IWf (Li : Nat) (c : Cache) : Prop where
   lineLength : c.lineLength = Li
-  lines : ∀ l ∈ c.lines, l.hi = l.lo + Li ∧ l.data.length = Li
+  lines : ∀ l ∈ c.lines, l.hi = wrap32 (l.lo + Li) ∧ -(2 ^ 31) ≤ l.lo ∧ l.data.length = Li
+
+/-- the lines after `PushLine` (with the `int32` upper bound of the new line): old lines, or the new one -/
+theorem pushLine_fix_lines (c : Cache) (lo : Int) (d : List Byte) :
+    ∀ l ∈ (fixHead (LineCache.pushLine c lo d).2).lines,
+      l ∈ c.lines ∨ l = { LineCache.newLine c lo d with hi := wrap32 (LineCache.newLine c lo d).hi } := by
+  intro l hl
+  unfold LineCache.pushLine at hl
+  simp only at hl
+  split at hl
+  · simp only at hl
+    cases hn : c.numberOfLines with
+    | zero => simp [hn, fixHead] at hl
+    | succ k =>
+      simp only [hn, List.take_succ_cons, fixHead] at hl
+      rcases List.mem_cons.mp hl with h | h
+      · exact Or.inr h
+      · exact Or.inl (List.mem_of_mem_take h)
+  · simp only [fixHead] at hl
+    rcases List.mem_cons.mp hl with h | h
+    · exact Or.inr h
+    · exact Or.inl h
+
+theorem fixHead_lineLength (c : Cache) : (fixHead c).lineLength = c.lineLength := by
+  unfold fixHead; split <;> rfl
+
+theorem pushLine_lineLength (c : Cache) (lo : Int) (d : List Byte) : (LineCache.pushLine c lo d).2.lineLength = c.lineLength := by
+  unfold LineCache.pushLine; simp only; split <;> rfl
 
 theorem fetch_ok {cfg : Config} {Li : Nat} (hcfg : cfg.l1ILineSize = Li) {u : Mmu} (hi : IWf Li u.l1i) (pc : Word) :
     ∃ u' f, fetch cfg u pc = .ok (u', f) ∧ u'.l1d = u.l1d ∧ IWf Li u'.l1i ∧
@@ -56,26 +83,27 @@ theorem fetch_ok {cfg : Config} {Li : Nat} (hcfg : cfg.l1ILineSize = Li) {u : Mm
     have hneg : ¬ (cfg.l1ILineSize < 0) := by rw [hcfg]; omega
     simp only [hm, bind, Except.bind, pure, Except.pure, hneg, if_false]
     refine ⟨_, _, rfl, rfl, ?_, Or.inr rfl⟩
-    simp only [pushLineToL1I, pushLine]
-    have hnew : ∀ l ∈ LineCache.newLine u.l1i pc.toInt (List.replicate cfg.l1ILineSize.toNat 0#8) :: u.l1i.lines,
-        l.hi = l.lo + Li ∧ l.data.length = Li := by
-      intro l hl
-      rcases List.mem_cons.mp hl with rfl | hl
-      · constructor
-        · show pc.toInt + (u.l1i.lineLength : Int) = pc.toInt + Li
-          rw [hi.lineLength]
-        · show (List.replicate cfg.l1ILineSize.toNat 0#8).length = Li
-          rw [hcfg]; simp
-      · exact hi.lines l hl
-    split
-    · exact { lineLength := hi.lineLength, lines := fun l hl => hnew l (List.mem_of_mem_take hl) }
-    · exact { lineLength := hi.lineLength, lines := hnew }
+    simp only [pushLineToL1I]
+    refine { lineLength := by rw [fixHead_lineLength, pushLine_lineLength]; exact hi.lineLength, lines := ?_ }
+    intro l hl
+    rcases pushLine_fix_lines _ _ _ l hl with h | h
+    · exact hi.lines l h
+    · rw [h]
+      refine ⟨?_, ?_, ?_⟩
+      · show wrap32 (pc.toInt + (u.l1i.lineLength : Int)) = wrap32 (pc.toInt + Li)
+        rw [hi.lineLength]
+      · show -(2 ^ 31) ≤ pc.toInt
+        have := BitVec.le_toInt pc
+        simpa using this
+      · show (List.replicate cfg.l1ILineSize.toNat 0#8).length = Li
+        rw [hcfg]; simp
   | some r =>
     obtain ⟨pre, l, post⟩ := r
     obtain ⟨hsplit, hcov, _⟩ := splitAt_some hs
     have hlm : l ∈ u.l1i.lines := by rw [hsplit]; simp
-    obtain ⟨hhi, hlen⟩ := hi.lines l hlm
+    obtain ⟨hhi, hlo, hlen⟩ := hi.lines l hlm
     have hc := (Proofs.LC.covers_iff l pc.toInt).mp hcov
+    have hle := wrap32_le (l.lo + Li) (by omega)
     have hlt : (pc.toInt - l.lo).toNat < l.data.length := by omega
     have hm : LineCache.get u.l1i pc.toInt = .ok (some l.data[(pc.toInt - l.lo).toNat], { u.l1i with lines := l :: (pre ++ post) }) := by
       unfold LineCache.get Line.at
@@ -104,12 +132,13 @@ theorem load_ok {cfg : Config} {L n : Nat} (hcfg : cfg.l1DLineSize = L) (hL : 0 
   | nil => exact ⟨[], u, mem, 0, rfl, rfl, rfl, hw, hc, Or.inl ⟨rfl, rfl⟩⟩
   | cons a0 as =>
     have h0 := (loadOk_spec hok a0 (by simp)).1
+    have hend := (loadOk_spec hok a0 (by simp)).2.2.2
     unfold load
     rcases resident_or_not hL hw a0.toInt h0 with hres | hmiss
     · obtain ⟨bytes, u', hg, h1, h2, h3, _, h5⟩ := getFromL1D_hit hL hw hc a0 as hok hres
       simp only [hg, bind, Except.bind]
       exact ⟨bytes, u', mem, _, rfl, h5, h1, h2, h3, Or.inr ⟨by simp, Or.inl rfl⟩⟩
-    · obtain ⟨line, u2, mem2, hf, hp, hi2, hw2, hc2, hres2, _⟩ := fill_ok hcfg hL hn hw hc a0 h0 hmiss
+    · obtain ⟨line, u2, mem2, hf, hp, hi2, hw2, hc2, hres2, _⟩ := fill_ok hcfg hL hn hw hc a0 h0 hmiss hend
       obtain ⟨bytes, u3, hg, h1, h2, h3, _, h5⟩ := getFromL1D_hit hL hw2 hc2 a0 as hok hres2
       simp only [getFromL1D_miss a0 as hmiss, hf, hp, hg, bind, Except.bind]
       exact ⟨bytes, u3, mem2, _, rfl, h5, by rw [h1, hi2], h2, h3, Or.inr ⟨by simp, Or.inr rfl⟩⟩
@@ -129,7 +158,7 @@ theorem store_ok {L n : Nat} (hL : 0 < L) {u : Mmu} {ctx : Model.Context} {flat 
   rcases resident_or_not hL hw p.1.toInt h0 with hres | hmiss
   · obtain ⟨l, hl, hlb⟩ := hres
     have hres' : ∃ l ∈ u.l1d.lines, ∀ q ∈ e.MemoryChanges, l.lo = base L q.1.toInt :=
-      ⟨l, hl, fun q hq => by rw [hlb]; exact ((hall q.1 (List.mem_map_of_mem hq)).2.2).symm⟩
+      ⟨l, hl, fun q hq => by rw [hlb]; exact ((hall q.1 (List.mem_map_of_mem hq)).2.2.1).symm⟩
     obtain ⟨u1, hd, hi1, hw1, hc1, hperm⟩ := doesExist_hit hL hw hc e hst hres'
     have hres1 : ∃ l ∈ u1.l1d.lines, ∀ q ∈ e.MemoryChanges, l.lo = base L q.1.toInt := by
       obtain ⟨l, hl, hq⟩ := hres'
@@ -145,7 +174,7 @@ theorem store_ok {L n : Nat} (hL : 0 < L) {u : Mmu} {ctx : Model.Context} {flat 
       | false => rfl
       | true =>
         have hyb := ((hw.lines y hy).covers_iff hL _ hq'.1).mp hcy
-        have := ((hw.lines y hy).covers_iff hL p.1.toInt h0).mpr (by rw [hyb, hq'.2.2])
+        have := ((hw.lines y hy).covers_iff hL p.1.toInt h0).mpr (by rw [hyb, hq'.2.2.1])
         rw [hmiss y hy] at this; cases this
     have hcoh := write_uncached_ok hL hw hc e.MemoryChanges hst hmiss'
     have hwm := writeMemory_ok e ctx (fun q hq => by
@@ -167,15 +196,20 @@ structure Sim (L n Li : Nat) (s : State) (a : Arch) : Prop where
 
 /-- how the costs of an iteration relate: same decode and execute latency; a fetch is an L1 or a memory
 access; a memory read costs at most L1 + memory; a write-back at most a memory access -/
-def CostRel (f : Int) (c3 c1 : StepCost) : Prop :=
+def CostRel (dc : Int) (f : Int) (c3 c1 : StepCost) : Prop :=
   (f = Gen.Latency.L1Access ∨ f = Gen.Latency.MemoryAccess) ∧ c3.decode = c1.decode ∧ c3.execute = c1.execute ∧
   0 ≤ c3.memRead ∧ c3.memRead ≤ Gen.Latency.L1Access + Gen.Latency.MemoryAccess ∧
-  0 ≤ c3.writeBack ∧ c3.writeBack ≤ Gen.Latency.MemoryAccess
+  0 ≤ c3.writeBack ∧ c3.writeBack ≤ Gen.Latency.MemoryAccess ∧
+  (c3.decode = 0 ∨ c3.decode = dc) ∧ 0 ≤ c3.execute ∧ c3.execute ≤ 50
 
-def StepRel (L n Li : Nat) (a : Arch) : Model.Seq.StepResult → Model.Mvp3.StepResult → Prop
-  | .next a' c, .next s' f c3 => Sim L n Li s' a' ∧ CostRel f c3 c
-  | .halt h c, .halt h' s' f c3 => h' = h ∧ Sim L n Li s' a ∧ (h = .offEnd ∨ CostRel f c3 c)
+def StepRel (L n Li : Nat) (dc : Int) (a : Arch) : Model.Seq.StepResult → Model.Mvp3.StepResult → Prop
+  | .next a' c, .next s' f c3 => Sim L n Li s' a' ∧ CostRel dc f c3 c
+  | .halt h c, .halt h' s' f c3 => h' = h ∧ Sim L n Li s' a ∧ (h = .offEnd ∨ CostRel dc f c3 c)
   | _, _ => False
+
+/-- the largest execute latency of the table -/
+theorem cycles_le (t : Gen.InstructionType) (c : Int) (h : Gen.InstructionType.Cycles t = .ok c) : c ≤ 50 := by
+  cases t <;> simp [Gen.InstructionType.Cycles, pure, Except.pure] at h <;> omega
 
 theorem l1_nonneg : 0 ≤ Gen.Latency.L1Access := by decide
 theorem mem_nonneg : 0 ≤ Gen.Latency.MemoryAccess := by decide
@@ -184,7 +218,7 @@ theorem reg_nonneg : 0 ≤ Gen.Latency.RegisterAccess := by decide
 
 theorem step_sim {cfg : Config} {L n Li : Nat} (hcfg : CfgOk cfg L n Li) (dc : Int) (app : App) {s : State} {a : Arch}
     (hs : Sim L n Li s a) (hacc : accessOk L app a = true) :
-    StepRel L n Li a (stepArch dc app a) (Model.Mvp3.step cfg dc app s) := by
+    StepRel L n Li dc a (stepArch dc app a) (Model.Mvp3.step cfg dc app s) := by
   obtain ⟨⟨sctx, spc⟩, su⟩ := s
   obtain ⟨hpc, hctx, hdwf, hcoh, hiwf⟩ := hs
   simp only at hpc hctx hdwf hcoh hiwf
@@ -205,12 +239,12 @@ theorem step_sim {cfg : Config} {L n Li : Nat} (hcfg : CfgOk cfg L n Li) (dc : I
       { pc := rfl, ctx := rfl, dwf := hdwf1, coh := hcoh1, iwf := hfi }
     by_cases h2 : Int.tdiv a.pc.toInt 4 < 0
     · simp only [h2, if_true, StepRel]
-      exact ⟨trivial, hsim1, Or.inr ⟨hfc, rfl, rfl, Int.le_refl 0, Int.add_nonneg hl1 hmem, Int.le_refl 0, hmem⟩⟩
+      exact ⟨trivial, hsim1, Or.inr ⟨hfc, rfl, rfl, Int.le_refl 0, Int.add_nonneg hl1 hmem, Int.le_refl 0, hmem, Or.inl rfl, Int.le_refl 0, (by decide : (0 : Int) ≤ 50)⟩⟩
     · simp only [h2, if_false]
       cases h3 : app.instrs[(Int.tdiv a.pc.toInt 4).toNat]? with
       | none =>
         simp only [StepRel]
-        exact ⟨trivial, hsim1, Or.inr ⟨hfc, rfl, rfl, Int.le_refl 0, Int.add_nonneg hl1 hmem, Int.le_refl 0, hmem⟩⟩
+        exact ⟨trivial, hsim1, Or.inr ⟨hfc, rfl, rfl, Int.le_refl 0, Int.add_nonneg hl1 hmem, Int.le_refl 0, hmem, Or.inl rfl, Int.le_refl 0, (by decide : (0 : Int) ≤ 50)⟩⟩
       | some i =>
         simp only
         unfold accessOk at hacc
@@ -233,25 +267,27 @@ theorem step_sim {cfg : Config} {L n Li : Nat} (hcfg : CfgOk cfg L n Li) (dc : I
           cases fl with
           | err msg =>
             simp only [StepRel, faultHalt]
-            exact ⟨trivial, hsim2, Or.inr ⟨hfc, rfl, rfl, hmr0.1, hmr0.2, Int.le_refl 0, hmem⟩⟩
+            exact ⟨trivial, hsim2, Or.inr ⟨hfc, rfl, rfl, hmr0.1, hmr0.2, Int.le_refl 0, hmem, Or.inr rfl, Int.le_refl 0, (by decide : (0 : Int) ≤ 50)⟩⟩
           | panic w =>
             simp only [StepRel, faultHalt]
-            exact ⟨trivial, hsim2, Or.inr ⟨hfc, rfl, rfl, hmr0.1, hmr0.2, Int.le_refl 0, hmem⟩⟩
+            exact ⟨trivial, hsim2, Or.inr ⟨hfc, rfl, rfl, hmr0.1, hmr0.2, Int.le_refl 0, hmem, Or.inr rfl, Int.le_refl 0, (by decide : (0 : Int) ≤ 50)⟩⟩
         | ok e =>
           simp only [h5] at hsok
           cases h6 : Gen.InstructionType.Cycles i.instructionType with
           | error fl =>
             simp only [StepRel]
-            exact ⟨trivial, hsim2, Or.inr ⟨hfc, rfl, rfl, hmr0.1, hmr0.2, Int.le_refl 0, hmem⟩⟩
+            exact ⟨trivial, hsim2, Or.inr ⟨hfc, rfl, rfl, hmr0.1, hmr0.2, Int.le_refl 0, hmem, Or.inr rfl, Int.le_refl 0, (by decide : (0 : Int) ≤ 50)⟩⟩
           | ok ex =>
             simp only
+            have hex0 : 0 ≤ ex := Int.le_of_lt (Proofs.Seq.cycles_pos _ _ h6)
+            have hex50 : ex ≤ 50 := cycles_le _ _ h6
             by_cases h7 : e.Return = true
             · simp only [h7, if_true, StepRel]
-              exact ⟨trivial, hsim2, Or.inr ⟨hfc, rfl, rfl, hmr0.1, hmr0.2, Int.le_refl 0, hmem⟩⟩
+              exact ⟨trivial, hsim2, Or.inr ⟨hfc, rfl, rfl, hmr0.1, hmr0.2, Int.le_refl 0, hmem, Or.inr rfl, hex0, hex50⟩⟩
             · simp only [h7]
               by_cases h8 : e.RegisterChange = true
               · simp only [h8, if_true, StepRel]
-                refine ⟨?_, hfc, rfl, rfl, hmr0.1, hmr0.2, reg_nonneg, reg_le_mem⟩
+                refine ⟨?_, hfc, rfl, rfl, hmr0.1, hmr0.2, reg_nonneg, reg_le_mem, Or.inr rfl, hex0, hex50⟩
                 exact { pc := rfl, ctx := rfl, dwf := hdwf2, coh := hcoh2, iwf := by rw [hi2]; exact hfi }
               · simp only [h8]
                 by_cases h9 : e.MemoryChange = true
@@ -267,7 +303,7 @@ theorem step_sim {cfg : Config} {L n Li : Nat} (hcfg : CfgOk cfg L n Li) (dc : I
                     have := hall q.1 (List.mem_map_of_mem hq)
                     exact ⟨this.1, this.2.1⟩)
                   simp only [hst, hwm, StepRel]
-                  refine ⟨?_, hfc, rfl, rfl, hmr0.1, hmr0.2, ?_, ?_⟩
+                  refine ⟨?_, hfc, rfl, rfl, hmr0.1, hmr0.2, ?_, ?_, Or.inr rfl, hex0, hex50⟩
                   · exact { pc := rfl, ctx := rfl, dwf := hdwf3, coh := hcoh3, iwf := by rw [hi3, hi2]; exact hfi }
                   · rcases hwb with h | h <;> rw [h] <;> omega
                   · rcases hwb with h | h <;> rw [h]
@@ -275,8 +311,138 @@ theorem step_sim {cfg : Config} {L n Li : Nat} (hcfg : CfgOk cfg L n Li) (dc : I
                     · exact Int.le_refl _
                 · simp only [h9, StepRel]
                   exact ⟨{ pc := rfl, ctx := rfl, dwf := hdwf2, coh := hcoh2, iwf := by rw [hi2]; exact hfi },
-                    hfc, rfl, rfl, hmr0.1, hmr0.2, Int.le_refl 0, hmem⟩
+                    hfc, rfl, rfl, hmr0.1, hmr0.2, Int.le_refl 0, hmem, Or.inr rfl, hex0, hex50⟩
   · simp only [h1, not_false_eq_true, if_true, StepRel]
     exact ⟨trivial, { pc := rfl, ctx := rfl, dwf := hdwf, coh := hcoh, iwf := hiwf }, Or.inl trivial⟩
+
+/-! ### whole runs -/
+
+/-- what the final results of the two machines have in common -/
+structure FinalRel (L n : Nat) (r3 : Model.Mvp3.Result) (r1 : Model.Seq.Result) : Prop where
+  halt : r3.halt = r1.halt
+  steps : r3.steps = r1.steps
+  pc : r3.final.pc = r1.final.pc
+  ctx : r3.final.ctx = { r1.final.ctx with Memory := r3.final.ctx.Memory }
+  dwf : DWf L n r3.mmu.l1d
+  coh : Coh r3.mmu.l1d.lines r3.final.ctx.Memory r1.final.ctx.Memory
+  flushed : (r1.halt = some .ret ∨ r1.halt = some .offEnd) → r3.final.ctx.Memory = r1.final.ctx.Memory
+
+/-- `finish` under the simulation relation: the flush succeeds, memory becomes the flat memory -/
+theorem finish_sim {cfg : Config} {L n Li : Nat} (hcfg : CfgOk cfg L n Li) {s : State} {a : Arch} (hs : Sim L n Li s a)
+    (h : Halt) (cyc : Int) (k : Nat) :
+    finish cfg h s cyc k =
+      { halt := some h, final := { s.arch with ctx := { s.arch.ctx with Memory := a.ctx.Memory } }, mmu := s.mmu,
+        cycles := cyc + s.mmu.l1d.lines.length * Gen.Latency.MemoryAccess, steps := k } := by
+  unfold finish
+  rw [flush_ok hcfg.dline hcfg.Lpos hs.dwf hs.coh]
+
+theorem finish_rel {cfg : Config} {L n Li : Nat} (hcfg : CfgOk cfg L n Li) {s : State} {a : Arch} (hs : Sim L n Li s a)
+    (h : Halt) (cyc : Int) (k : Nat) (c1 : Int) :
+    FinalRel L n (finish cfg h s cyc k) { halt := some h, final := a, cycles := c1, steps := k } := by
+  rw [finish_sim hcfg hs]
+  have hctx := hs.ctx
+  exact { halt := rfl, steps := rfl, pc := hs.pc, ctx := by simp only; rw [hctx], dwf := hs.dwf,
+          coh := hs.coh.flushed, flushed := fun _ => rfl }
+
+theorem go_sim {cfg : Config} {L n Li : Nat} (hcfg : CfgOk cfg L n Li) {σ} (fp : FetchPolicy σ) (dc : Int) (app : App) :
+    ∀ (fuel : Nat) (s : State) (a : Arch) (fs : σ) (cyc3 cyc1 : Int) (k : Nat), Sim L n Li s a →
+      accessesOk L dc app fuel a = true →
+      FinalRel L n (Model.Mvp3.go cfg dc app fuel s cyc3 k) (Model.Seq.run.go fp dc app fuel a fs cyc1 k) := by
+  intro fuel
+  induction fuel with
+  | zero =>
+    intro s a fs cyc3 cyc1 k hs _
+    simp only [Model.Mvp3.go, Model.Seq.run.go]
+    exact { halt := rfl, steps := rfl, pc := hs.pc, ctx := hs.ctx, dwf := hs.dwf, coh := hs.coh,
+            flushed := fun h => by rcases h with h | h <;> cases h }
+  | succ fuel ih =>
+    intro s a fs cyc3 cyc1 k hs hacc
+    unfold accessesOk at hacc
+    simp only [Bool.and_eq_true] at hacc
+    obtain ⟨hacc1, hacc2⟩ := hacc
+    have hrel := step_sim hcfg dc app hs hacc1
+    unfold Model.Mvp3.go Model.Seq.run.go
+    cases hsa : stepArch dc app a with
+    | next a' c =>
+      rw [hsa] at hrel hacc2
+      cases hs3 : Model.Mvp3.step cfg dc app s with
+      | halt h3 s' f c3 => rw [hs3] at hrel; simp [StepRel] at hrel
+      | next s' f c3 =>
+        rw [hs3] at hrel
+        simp only [StepRel] at hrel
+        simp only
+        exact ih s' a' _ _ _ _ hrel.1 hacc2
+    | halt h c =>
+      rw [hsa] at hrel
+      cases hs3 : Model.Mvp3.step cfg dc app s with
+      | next s' f c3 => rw [hs3] at hrel; simp [StepRel] at hrel
+      | halt h3 s' f c3 =>
+        rw [hs3] at hrel
+        simp only [StepRel] at hrel
+        obtain ⟨rfl, hs', _⟩ := hrel
+        cases h3 with
+        | offEnd => exact finish_rel hcfg hs' .offEnd _ _ _
+        | ret => exact finish_rel hcfg hs' .ret _ _ _
+        | err =>
+          exact { halt := rfl, steps := rfl, pc := hs'.pc, ctx := hs'.ctx, dwf := hs'.dwf, coh := hs'.coh,
+                  flushed := fun h => by rcases h with h | h <;> cases h }
+        | panic w =>
+          exact { halt := rfl, steps := rfl, pc := hs'.pc, ctx := hs'.ctx, dwf := hs'.dwf, coh := hs'.coh,
+                  flushed := fun h => by rcases h with h | h <;> cases h }
+
+/-- the state `NewCPU` builds is related to the cache-less machine's initial state -/
+theorem init_sim {cfg : Config} {L n Li : Nat} (hcfg : CfgOk cfg L n Li) (a : Arch) :
+    ∃ u, Model.Mmu.new cfg = .ok u ∧ Sim L n Li ⟨a, u⟩ a := by
+  obtain ⟨u, hnew, hdl, hdL, hdn, hil, hiL⟩ := hcfg.new
+  refine ⟨u, hnew, ?_⟩
+  have hd : DWf L n u.l1d :=
+    { lineLength := hdL, numberOfLines := hdn,
+      lines := (by rw [hdl]; intro l hl; cases hl),
+      distinct := (by rw [hdl]; exact List.Pairwise.nil),
+      count := (by rw [hdl]; exact Nat.zero_le _) }
+  have hc : Coh u.l1d.lines a.ctx.Memory a.ctx.Memory := by
+    rw [hdl]
+    exact { len := rfl, cached := fun l hl => (by cases hl), uncached := fun _ _ _ => rfl }
+  have hi : IWf Li u.l1i := { lineLength := hiL, lines := (by rw [hil]; intro l hl; cases hl) }
+  exact { pc := rfl, ctx := rfl, dwf := hd, coh := hc, iwf := hi }
+
+/-- **MVP-3 simulates the cache-less machine** on whole runs (any fetch policy of the latter) -/
+theorem run_sim {cfg : Config} {L n Li : Nat} (hcfg : CfgOk cfg L n Li) {σ} (fp : FetchPolicy σ) (dc : Int) (app : App)
+    (a : Arch) (fuel : Nat) (hacc : accessesOk L dc app fuel a = true) :
+    FinalRel L n (Model.Mvp3.run cfg dc app a fuel) (Model.Seq.run fp dc app a fuel) := by
+  obtain ⟨u, hnew, hs⟩ := init_sim hcfg a
+  unfold Model.Mvp3.run Model.Seq.run
+  simp only [hnew]
+  exact go_sim hcfg fp dc app fuel ⟨a, u⟩ a fp.init 0 0 0 hs hacc
+
+/-! ### the instance for the constants of proc/mvp3 -/
+
+theorem lineSize : mvp3Config.l1DLineSize = 64 := by decide
+
+theorem wfAccesses_eq (app : App) (a : Arch) (fuel : Nat) :
+    wfAccesses app a fuel = accessesOk ((64 : Nat) : Int) Gen.Consts.mvp3.cyclesDecode app fuel a := by
+  unfold wfAccesses
+  rw [mvp3Config_ok.dline]
+  rfl
+
+/-- MVP-3 against the cache-less MVP-1 on whole runs -/
+theorem mvp3_finalRel (app : App) (a : Arch) (fuel : Nat) (h : wfAccesses app a fuel = true) :
+    FinalRel 64 16 (runMvp3 app a fuel) (runMvp1 app a fuel) := by
+  rw [wfAccesses_eq] at h
+  have hd : Gen.Consts.mvp3.cyclesDecode = Gen.Consts.mvp1.cyclesDecode := by decide
+  have := run_sim mvp3Config_ok mvp1Fetch Gen.Consts.mvp3.cyclesDecode app a fuel h
+  unfold runMvp3 runMvp1
+  rw [← hd]
+  exact this
+
+theorem arch_eq (f3 f1 : Arch) (hp : f3.pc = f1.pc) (hc : f3.ctx = { f1.ctx with Memory := f3.ctx.Memory })
+    (hm : f3.ctx.Memory = f1.ctx.Memory) : f3 = f1 := by
+  cases f3 with
+  | mk c3 p3 =>
+    cases f1 with
+    | mk c1 p1 =>
+      simp only at hm hc hp
+      subst hp
+      rw [hc, hm]
 
 end Proofs.Mvp3
